@@ -13,9 +13,8 @@ use crate::{NetflowPacket, NetflowParseError, ParsedNetflow, PartialParse};
 use Nom;
 use nom::IResult;
 use nom::bytes::complete::take;
-use nom::combinator::complete;
 use nom::combinator::map_res;
-use nom::multi::{count, many0};
+use nom::multi::count;
 use nom::number::complete::{be_u8, be_u16};
 use nom_derive::*;
 use serde::Serialize;
@@ -58,14 +57,38 @@ pub struct IPFix {
     /// Sets
     #[nom(
         PreExec = "let length = header.length.saturating_sub(16);",
-        Parse = "map_res(take(length), |i| {
-            many0(complete(|i| FlowSet::parse(i, parser)
-                .map(|(i, flow_set)| (i, flow_set))
-            ))(i)
-            .map(|(_, flow_sets)| flow_sets) // Extract the Vec<FlowSet>
-        })"
+        Parse = "map_res(take(length), |i| parse_sets(i, parser))"
     )]
     pub flowsets: Vec<FlowSet>,
+}
+
+/// Parses the Sets of one message. A Set that cannot be decoded (for instance a Data Set whose
+/// template has not been received yet) is omitted; its own length field says where the next
+/// Set starts, so the Sets after it are still processed.
+fn parse_sets<'a>(
+    mut i: &'a [u8],
+    parser: &mut IPFixParser,
+) -> Result<Vec<FlowSet>, nom::Err<nom::error::Error<&'a [u8]>>> {
+    let mut flow_sets = vec![];
+    while !i.is_empty() {
+        match FlowSet::parse(i, parser) {
+            Ok((remaining, flow_set)) => {
+                flow_sets.push(flow_set);
+                i = remaining;
+            }
+            Err(_) => {
+                let Ok((_, header)) = FlowSetHeader::parse(i) else {
+                    break;
+                };
+                let length = usize::from(header.length);
+                if length < 4 || length > i.len() {
+                    break;
+                }
+                i = &i[length..];
+            }
+        }
+    }
+    Ok(flow_sets)
 }
 
 #[derive(Debug, PartialEq, Clone, Serialize)]
